@@ -94,6 +94,7 @@ class ConnProxy:
         self._r = real
         self._name = name
         self._closed = False
+        self._dml_ok = False
 
     def cursor(self):
         return CurProxy(self, self._r.cursor())
@@ -105,6 +106,9 @@ class ConnProxy:
             sim.yield_point('commit', 1e-3)
         r = self._r.commit()
         if sim is not None:
+            if self._dml_ok:
+                sim.sql_errors_in_a_row = 0
+                self._dml_ok = False
             sim.stat('commits')
             if sim.tasks:
                 sim.wake_lock_waiters()
@@ -160,9 +164,17 @@ class CurProxy:
             try:
                 r = self._r.execute(sql, *a)
                 sim.stat('sql_exec')
+                if w[0].upper() not in ('PRAGMA', 'SELECT'):
+                    self._c._dml_ok = True
                 return self
             except _sq.OperationalError as e:
+                sim.sql_errors_in_a_row += 1
+                if sim.sql_errors_in_a_row > kernel.LIVELOCK_CAP:
+                    sim.ev('livelock')
+                    raise kernel.Livelock('%d SQL errors in a row without a successful commit, last: %s'
+                                          % (sim.sql_errors_in_a_row, e))
                 if 'locked' not in str(e):
+                    sim.stat('sql_error')
                     raise
                 sim.stat('lock_conflict')
                 if not sim.active():
